@@ -74,9 +74,10 @@ def r2b(db, rep, rid="R2b"):
         body = db.mir.get(fn)
         rep.anchor(body is not None, fn)
         tm = terms_of(db, fn, {})
-        pl = None
+        usize_params = [i for i in range(1, body["argc"] + 1) if body["types"][body["locals"][i]] == "usize"]
+        pl = usize_params[0] if len(usize_params) == 1 else None
         for nm, plc in body.get("names", []):
-            if nm == pname and len(plc) == 1 and plc[0] <= body["argc"]:
+            if pl is None and nm == pname and len(plc) == 1 and plc[0] <= body["argc"]:
                 pl = plc[0]
         rep.anchor(pl is not None, "%s: parameter %s" % (fn, pname))
         sites = [(t, tm.operand(t["args"][1])) for i, t in mir_calls(body) if (mir_callee(t) or "") == "il::expr_const"]
@@ -96,9 +97,10 @@ def r1o(db, rep, rid="R1o"):
         body = db.mir.get(fn)
         rep.anchor(body is not None, fn)
         tm = terms_of(db, fn, {})
-        al = None
+        u64p = [i for i in range(1, body["argc"] + 1) if body["types"][body["locals"][i]] == "u64"]
+        al = u64p[0] if len(u64p) == 1 else None
         for nm, pl in body.get("names", []):
-            if nm == "address" and len(pl) == 1 and pl[0] <= body["argc"] and al is None:
+            if al is None and nm == "address" and len(pl) == 1 and pl[0] <= body["argc"]:
                 al = pl[0]
         rep.anchor(al is not None, "%s: parameter address" % fn)
         sites = []
